@@ -591,6 +591,12 @@ def write_findings():
         with open(os.path.join(common.VERIF, fn), "w") as f:
             json.dump(obj, f, indent=1)
         entries.append({"property": PROPERTY, "id": k["id"], "title": k["title"], "signature": obj["class"], "replay": fn})
+    for k in S.KNOWN_NEAR:
+        obj = S.known_near_obj(k)
+        fn = "findings/%s.json" % k["id"]
+        with open(os.path.join(common.VERIF, fn), "w") as f:
+            json.dump(obj, f, indent=1)
+        entries.append({"property": PROPERTY, "id": k["id"], "title": k["title"], "signature": obj["class"], "replay": fn})
     with open(os.path.join(common.VERIF, "findings.d", "C03.json"), "w") as f:
         json.dump({"open": entries, "fixed": fixed}, f, indent=1)
 
@@ -653,6 +659,7 @@ def run(ctx):
         variable_correspondence(ctx)
         similar_stream(ctx, drv, ctx.scale(40, 300))
         wordcut_stream(ctx, drv, ctx.scale(4, 25))
+        near_stream(ctx, ctx.scale(10, 60))
     finally:
         drv.close()
     coq_eval(ctx, records)
@@ -980,11 +987,50 @@ def similar_stream(ctx, drv, nspecs):
                     return
 
 
+# ----------------------------------------------------------------------------- near misses of similar=True
+def near_stream(ctx, nspecs):
+    """similar=True must NOT replace code that only looks like the piece: the same code on an object whose class
+    rope cannot know or knows to be different (pieces that use self), the same expression with a literal of equal
+    value but another type (1 / 1.0 / True); and it must replace the same code on self in another method.
+    Execution oracle only (c03_similar.build2). A fresh project per module: what rope inferred about a function
+    in an earlier module would otherwise be reused."""
+    fixed = [k["spec2"] for k in S.KNOWN_NEAR] + [
+        {"self_piece": "({o}.k + p) * q", "lit_piece": "(p + 1) * q", "twin": "(p + 1.0) * q", "twin_kind": "float",
+         "typed_call": False, "order": 1},
+        {"self_piece": "{o}.k * p + q", "lit_piece": "[p, 3, q]", "twin": "[p, 3.0, q]", "twin_kind": "float",
+         "typed_call": False, "order": 0}]
+    for spec in fixed + [S.gen_spec2(ctx.rng) for _ in range(nspecs)]:
+        source, occ = S.build2(spec)
+        base = S.run_module(source)
+        assert base[1] == ["ok"], (base[1], source)
+        drv = E.Driver()
+        try:
+            for site, kind, opts in S.selections2(spec):
+                obj, r, fail = S.run_case2(drv, spec, site, kind, opts)
+                if fail:
+                    obj["observed"] = fail
+                obj["class"] = S.near_signature(obj)
+                flags = "+".join(sorted(k if v is True else "%s=%s" % (k, v) for k, v in opts.items()))
+                ctx.case(("near", source, site, kind, flags), nontrivial=not r["refused"])
+                ctx.count("near:%s:%s:from=%s:twin=%s:typed_call=%s:%s" % (
+                    kind, flags, site, spec["twin_kind"], spec["typed_call"],
+                    "refused" if r["refused"] else ("fails" if fail else "ok")))
+                if fail:
+                    ctx.violation(obj, "C03: extract %s %s at site %s of a module with look-alike code changes behaviour: %r\n%s" % (
+                        kind, flags, site, fail, source))
+        finally:
+            drv.close()
+        if ctx.too_many(8):
+            return
+
+
 # ----------------------------------------------------------------------------- replay / signature
 def replay(ctx, obj):
     """True = the property fails on the recorded input (behaviour differs, result does not parse, or crash)."""
     if obj.get("kind") == "similar":
         return S.replay(obj)
+    if obj.get("kind") == "near":
+        return S.replay2(obj)
     if obj.get("kind") == "wordcut":
         drv = E.Driver()
         try:
@@ -1021,6 +1067,8 @@ def replay(ctx, obj):
 
 
 def signature(obj):
+    if obj.get("kind") == "near":
+        return S.near_signature(obj)
     if obj.get("kind") == "wordcut":
         return "wordcut"
     if obj.get("kind") == "similar":
